@@ -187,19 +187,22 @@ Lemma firstz_len_app {A} (t x : list A) : firstz (len t) (t ++ x) = t.
 Proof. unfold firstz, len. rewrite Nat2Z.id. rewrite firstn_app, firstn_all, Nat.sub_diag. cbn. apply app_nil_r. Qed.
 
 (* --- escapes (CSS Syntax "escape" diagram) ------------------------------------------------------------------- *)
-(* An escape text e comes with a condition nb on the byte that follows it: a hex escape without its optional
+(* An escape text e comes with a condition nb on what follows it (only its first byte matters, and for a UTF-8
+   sequence cut short whether anything follows at all): a hex escape without its optional
    terminating whitespace must not be followed by whitespace (which it would swallow) nor, if shorter than six
    digits, by another hex digit.  The terminating whitespace is one byte, or CR LF (one whitespace, fix 2cdd145);
    a lone CR must therefore not be followed by LF. *)
-Definition any_next (c : Z) : bool := true.
-Definition not_ws_next (c : Z) : bool := negb (is_ws c).
-Definition not_hex_ws_next (c : Z) : bool := negb (is_hex c) && negb (is_ws c).
-Definition not_lf_next (c : Z) : bool := negb (c =? 10).
+Definition any_next (r : list Z) : bool := true.
+Definition not_ws_next (r : list Z) : bool := negb (is_ws (hd0 r)).
+Definition not_hex_ws_next (r : list Z) : bool := negb (is_hex (hd0 r)) && negb (is_ws (hd0 r)).
+Definition not_lf_next (r : list Z) : bool := negb (hd0 r =? 10).
+Definition at_end (r : list Z) : bool := match r with [] => true | _ => false end.
 Definition rune_need (c : Z) : Z := if c <? 224 then 2 else if c <? 240 then 3 else 4.
 
-Inductive esc_text : list Z -> (Z -> bool) -> Prop :=
+Inductive esc_text : list Z -> (list Z -> bool) -> Prop :=
 | Esc_char c : is_hex c = false -> is_nl c = false -> c < 192 -> esc_text [92; c] any_next
 | Esc_rune c cont : 192 <= c -> len cont = rune_need c - 1 -> esc_text (92 :: c :: cont) any_next
+| Esc_rune_cut c cont : 192 <= c -> len cont < rune_need c - 1 -> esc_text (92 :: c :: cont) at_end
 | Esc_hex_ws h w : all_b is_hex h -> 1 <= len h <= 6 -> is_ws w = true -> w <> 13 -> esc_text (92 :: h ++ [w]) any_next
 | Esc_hex_crlf h : all_b is_hex h -> 1 <= len h <= 6 -> esc_text (92 :: h ++ [13; 10]) any_next
 | Esc_hex_cr h : all_b is_hex h -> 1 <= len h <= 6 -> esc_text (92 :: h ++ [13]) not_lf_next
@@ -208,9 +211,10 @@ Inductive esc_text : list Z -> (Z -> bool) -> Prop :=
 
 Lemma esc_text_bs e nb : esc_text e nb -> exists e', e = 92 :: e' /\ 1 <= len e'.
 Proof.
-  intros [c _ _ _|c cont Hc Hl|h w _ Hl _ _|h _ Hl|h _ Hl|h _ Hl|h _ Hl]; eexists; (split; [reflexivity|]).
+  intros [c _ _ _|c cont Hc Hl|c cont Hc Hl|h w _ Hl _ _|h _ Hl|h _ Hl|h _ Hl|h _ Hl]; eexists; (split; [reflexivity|]).
   - lens; lia.
   - lens; lia.
+  - pose proof (len_nonneg cont). lens; lia.
   - rewrite len_app. change (len [w]) with 1. lia.
   - rewrite len_app. change (len [13; 10]) with 2. lia.
   - rewrite len_app. change (len [13]) with 1. lia.
@@ -253,10 +257,10 @@ Proof.
   replace (hd0 r =? 13) with false by (revert H; cls; lia). cbn [option_bind Z.ltb Z.compare]. rewrite H. reflexivity.
 Qed.
 
-Lemma escape_run e nb r : esc_text e nb -> nb (hd0 r) = true -> consume_escape (e ++ r ++ [0]) = Some (len e).
+Lemma escape_run e nb r : esc_text e nb -> nb r = true -> consume_escape (e ++ r ++ [0]) = Some (len e).
 Proof.
   intros He Hnb. unfold consume_escape.
-  destruct He as [c Hh Hn Hc|c cont Hc Hl|h w Hh Hl Hw Hw13|h Hh Hl|h Hh Hl|h Hh Hl|h Hh Hl]; cbn [app]; rewrite peekz_0; cbn [option_bind negb Z.eqb Pos.eqb tl].
+  destruct He as [c Hh Hn Hc|c cont Hc Hl|c cont Hc Hl|h w Hh Hl Hw Hw13|h Hh Hl|h Hh Hl|h Hh Hl|h Hh Hl]; cbn [app]; rewrite peekz_0; cbn [option_bind negb Z.eqb Pos.eqb tl].
   - unfold consume_newline, consume_hexdigit. rewrite !peekz_0. cbn [option_bind].
     replace ((c =? 10) || (c =? 12)) with false by (cls; lia). replace (c =? 13) with false by (cls; lia).
     cbn [option_bind Z.ltb Z.compare]. rewrite Hh. cbn [Z.ltb Z.compare]. replace (192 <=? c) with false by lia.
@@ -266,6 +270,16 @@ Proof.
     cbn [option_bind Z.ltb Z.compare]. replace (is_hex c) with false by (cls; lia). cbn [Z.ltb Z.compare].
     replace (192 <=? c) with true by lia. rewrite rune_len_val. cbn [option_bind].
     rewrite !len_app. change (len [0]) with 1. pose proof (len_nonneg r). unfold rune_need in Hl.
+    rewrite !len_cons. f_equal.
+    destruct (c <? 224) eqn:E1; destruct (c <? 240) eqn:E2;
+      replace (c <? 192) with false by lia; cbn [orb];
+      repeat match goal with |- context [?a <? ?b] => let v := fresh in destruct (a <? b) eqn:v; try lia end; cbn [orb]; lia.
+  - destruct r as [|r0 r]; [|discriminate Hnb]. cbn [app].
+    unfold consume_newline, consume_hexdigit. rewrite !peekz_0. cbn [option_bind].
+    replace ((c =? 10) || (c =? 12)) with false by lia. replace (c =? 13) with false by lia.
+    cbn [option_bind Z.ltb Z.compare]. replace (is_hex c) with false by (cls; lia). cbn [Z.ltb Z.compare].
+    replace (192 <=? c) with true by lia. rewrite rune_len_val. cbn [option_bind].
+    rewrite !len_app. change (len [0]) with 1. pose proof (len_nonneg cont). unfold rune_need in Hl.
     rewrite !len_cons. f_equal.
     destruct (c <? 224) eqn:E1; destruct (c <? 240) eqn:E2;
       replace (c <? 192) with false by lia; cbn [orb];
@@ -343,7 +357,7 @@ Proof. intros H E. congruence. Qed.
 Inductive nbody : list Z -> list Z -> Prop :=
 | NB_nil r : nbody [] r
 | NB_char c t r : ident_char c = true -> nbody t r -> nbody (c :: t) r
-| NB_esc e nb t r : esc_text e nb -> nb (hd0 (t ++ r)) = true -> nbody t r -> nbody (e ++ t) r.
+| NB_esc e nb t r : esc_text e nb -> nb (t ++ r) = true -> nbody t r -> nbody (e ++ t) r.
 
 Lemma all_b_nbody a r : all_b ident_char a -> nbody a r.
 Proof. induction 1; constructor; assumption. Qed.
@@ -351,7 +365,7 @@ Proof. induction 1; constructor; assumption. Qed.
 (* the first item of a name: a name-start byte or an escape *)
 Inductive ident_core : list Z -> list Z -> Prop :=
 | IC_char c rest r : ident_start c = true -> nbody rest r -> ident_core (c :: rest) r
-| IC_esc e nb rest r : esc_text e nb -> nb (hd0 (rest ++ r)) = true -> nbody rest r -> ident_core (e ++ rest) r.
+| IC_esc e nb rest r : esc_text e nb -> nb (rest ++ r) = true -> nbody rest r -> ident_core (e ++ rest) r.
 Inductive ident_text : list Z -> list Z -> Prop :=
 | IT_core t r : ident_core t r -> ident_text t r
 | IT_dash t r : ident_core t r -> ident_text (45 :: t) r.
@@ -447,10 +461,42 @@ Proof.
   replace (hd0 r =? 40) with false by lia. reflexivity.
 Qed.
 
-(* "u" / "U" directly followed by "+" and a hex digit or "?" would start a unicode range *)
+(* "u" / "U" directly followed by "+" starts a unicode range unless what follows the "+" fails to be one: h = the hex
+   digits, then either "-" (no or more than six digits before it, or no or more than six after it), or the "?" run q
+   (no digit or "?" at all, or more than six of them).  The lexer then returns the identifier "u" on its own. *)
+Inductive range_fails : list Z -> Prop :=
+| RF_dash h h2 y3 : all_b is_hex h -> all_b is_hex h2 -> is_hex (hd0 y3) = false ->
+    (len h = 0 \/ 6 < len h \/ len h2 = 0 \/ 6 < len h2) -> range_fails (h ++ 45 :: h2 ++ y3)
+| RF_q h q y3 : all_b is_hex h -> all_b is_qmark q -> (q = [] -> is_hex (hd0 y3) = false /\ hd0 y3 <> 45) -> hd0 y3 <> 63 ->
+    (len h + len q = 0 \/ 6 < len h + len q) -> range_fails (h ++ q ++ y3).
+
+Lemma urange_fail c x : (c =? 117) || (c =? 85) = true -> range_fails x -> consume_unicode_range (c :: 43 :: x ++ [0]) = Some 0.
+Proof.
+  intros Eu Hx. unfold consume_unicode_range. rewrite peekz_0, peekz_1, peekz_0. cbn [option_bind]. rewrite Eu.
+  change (43 =? 43) with true. cbn [negb]. rewrite skipz_2.
+  destruct Hx as [h h2 y3 Hh Hh2 Hy Hl|h q y3 Hh Hq Hq0 Hy Hl].
+  - rewrite <- app_assoc. cbn [app].
+    change (h ++ 45 :: (h2 ++ y3) ++ [0]) with (h ++ (45 :: h2 ++ y3) ++ [0]).
+    rewrite (scan_while_run is_hex h (45 :: h2 ++ y3) Hh eq_refl eq_refl). cbn [option_bind]. rewrite skipz_len_app.
+    unfold consume_byte. cbn [app]. rewrite peekz_0. cbn [option_bind Z.eqb Pos.eqb Z.ltb Z.compare]. cbv beta iota.
+    destruct ((len h =? 0) || (6 <? len h)) eqn:E1; [reflexivity|]. cbn [tl]. rewrite <- app_assoc.
+    rewrite (scan_while_run is_hex h2 y3 Hh2 Hy eq_refl). cbn [option_bind].
+    replace ((len h2 =? 0) || (6 <? len h2)) with true by lia. reflexivity.
+  - rewrite <- !app_assoc.
+    replace (h ++ q ++ y3 ++ [0]) with (h ++ (q ++ y3) ++ [0]) by (rewrite <- app_assoc; reflexivity).
+    assert (Hnh : is_hex (hd0 (q ++ y3)) = false /\ hd0 (q ++ y3) <> 45).
+    { destruct q as [|q0 q]; [apply Hq0; reflexivity|]. inversion Hq; subst. cbn [app hd0]. cls. lia. }
+    destruct Hnh as [Hnh Hn45].
+    rewrite (scan_while_run is_hex h (q ++ y3) Hh Hnh eq_refl). cbn [option_bind]. rewrite skipz_len_app.
+    unfold consume_byte. rewrite peekz_sent_0. cbn [option_bind]. replace (hd0 (q ++ y3) =? 45) with false by lia.
+    cbn [Z.ltb Z.compare]. cbv beta iota. rewrite <- app_assoc.
+    rewrite (scan_while_run is_qmark q y3 Hq) by (try reflexivity; unfold is_qmark; lia). cbn [option_bind].
+    replace ((len h + len q =? 0) || (6 <? len h + len q)) with true by lia. reflexivity.
+Qed.
+
 Definition u_follow (t r : list Z) : Prop :=
   match t with
-  | [c] => (c =? 117) || (c =? 85) = true -> hd0 r = 43 -> is_hex (hd0 (tl r)) = false /\ hd0 (tl r) <> 63
+  | [c] => (c =? 117) || (c =? 85) = true -> hd0 r = 43 -> range_fails (tl r)
   | _ => True
   end.
 
@@ -467,16 +513,12 @@ Proof.
         assert (Hur : consume_unicode_range (c :: t0 ++ x ++ [0]) = Some 0).
         { unfold consume_unicode_range. rewrite peekz_0, peekz_1. cbn [option_bind]. rewrite Eu. cbn [negb].
           destruct t0 as [|c1 t0]; cbn [app].
-          - rewrite peekz_sent_0. cbn [option_bind]. destruct (hd0 x =? 43) eqn:E43; [|reflexivity]. cbn [negb].
-            destruct x as [|x0 x]; [discriminate E43|]. cbn [hd0] in E43. assert (x0 = 43) by lia. subst x0.
-            destruct (Hu Eu eq_refl) as [Hhx Hqx]. cbn [tl hd0] in Hhx, Hqx. cbn [app]. rewrite skipz_2.
-            pose proof (scan_while_run is_hex [] x (Forall_nil _) Hhx eq_refl) as Hs1. cbn [app] in Hs1. rewrite Hs1.
-            cbn [option_bind]. change (len (@nil Z)) with 0. rewrite skipz_0.
-            unfold consume_byte. rewrite peekz_sent_0. cbn [option_bind].
-            destruct (hd0 x =? 45); cbn [Z.ltb Z.compare]; cbv beta iota; [reflexivity|].
-            assert (Hq' : is_qmark (hd0 x) = false) by (unfold is_qmark; lia).
-            pose proof (scan_while_run is_qmark [] x (Forall_nil _) Hq' eq_refl) as Hs2. cbn [app] in Hs2. rewrite Hs2.
-            reflexivity.
+          - destruct (hd0 x =? 43) eqn:E43.
+            + destruct x as [|x0 x]; [discriminate E43|]. cbn [hd0] in E43. assert (x0 = 43) by lia. subst x0.
+              pose proof (urange_fail c x Eu (Hu Eu eq_refl)) as Hf. unfold consume_unicode_range in Hf.
+              rewrite peekz_0, peekz_1, peekz_0 in Hf. cbn [option_bind] in Hf. rewrite Eu in Hf. cbn [negb app] in *.
+              rewrite peekz_0. cbn [option_bind]. exact Hf.
+            + rewrite peekz_sent_0. cbn [option_bind]. rewrite E43. reflexivity.
           - rewrite peekz_0. cbn [option_bind].
             assert (Hb : nbody (c1 :: t0) r0) by (inversion Hc as [? ? ? _ Hb|e nb rest ? He _ _ Ee]; [exact Hb|];
               destruct (esc_text_bs _ _ He) as (e' & -> & _); cbn [app] in Ee; injection Ee as Ec _; cls; lia).
@@ -885,7 +927,7 @@ Definition line_break (nlb y : list Z) : Prop :=
 Inductive sbody (q : Z) : list Z -> list Z -> Prop :=
 | SB_nil r : sbody q [] r
 | SB_char c t r : str_byte q c = true -> sbody q t r -> sbody q (c :: t) r
-| SB_esc e nb t r : esc_text e nb -> nb (hd0 (t ++ r)) = true -> sbody q t r -> sbody q (e ++ t) r
+| SB_esc e nb t r : esc_text e nb -> nb (t ++ r) = true -> sbody q t r -> sbody q (e ++ t) r
 | SB_cont nlb t r : line_break nlb (t ++ r) -> sbody q t r -> sbody q (92 :: nlb ++ t) r.
 
 Lemma all_b_sbody q a r : all_b (str_byte q) a -> sbody q a r.
@@ -1166,20 +1208,31 @@ Qed.
 Ltac rassoc := repeat (rewrite <- ?app_assoc; progress cbn [app]); rewrite <- ?app_assoc.
 Ltac rassoc_in H := repeat (rewrite <- ?app_assoc in H; progress cbn [app] in H); rewrite <- ?app_assoc in H.
 
-(* the follower of a name only matters through its first byte *)
-Lemma nbody_follow t r r' : nbody t r -> hd0 r = hd0 r' -> nbody t r'.
+(* the follower of a name only matters through its first byte (and whether there is one) *)
+Definition same_head (x y : list Z) : Prop := hd0 x = hd0 y /\ (x = [] <-> y = []).
+
+Lemma same_head_app t x y : same_head x y -> same_head (t ++ x) (t ++ y).
+Proof. intros [H1 H2]. destruct t; [split; assumption|split; [reflexivity|split; discriminate]]. Qed.
+
+Lemma esc_nb_follow e nb x y : esc_text e nb -> same_head x y -> nb x = nb y.
+Proof.
+  intros He [H1 H2]. destruct He; unfold any_next, at_end, not_ws_next, not_hex_ws_next, not_lf_next; rewrite ?H1; try reflexivity.
+  destruct x, y; try reflexivity; [destruct H2 as [H2 _]; specialize (H2 eq_refl); discriminate|destruct H2 as [_ H2]; specialize (H2 eq_refl); discriminate].
+Qed.
+
+Lemma nbody_follow t r r' : nbody t r -> same_head r r' -> nbody t r'.
 Proof.
   intros H E. induction H as [r|c t r Hc Ht IH|e nb t r He Hnb Ht IH]; [constructor|constructor; auto|].
-  apply (NB_esc e nb); [exact He| |auto]. rewrite hd0_app in *. destruct t; [rewrite <- E; exact Hnb|exact Hnb].
+  apply (NB_esc e nb); [exact He| |auto]. rewrite <- (esc_nb_follow e nb _ _ He (same_head_app t _ _ E)). exact Hnb.
 Qed.
-Lemma ident_core_follow t r r' : ident_core t r -> hd0 r = hd0 r' -> ident_core t r'.
+Lemma ident_core_follow t r r' : ident_core t r -> same_head r r' -> ident_core t r'.
 Proof.
   intros [c rest r0 Hc Hb|e nb rest r0 He Hnb Hb] E.
   - apply IC_char; [exact Hc|eapply nbody_follow; eassumption].
   - apply (IC_esc e nb); [exact He| |eapply nbody_follow; eassumption].
-    rewrite hd0_app in *. destruct rest; [rewrite <- E; exact Hnb|exact Hnb].
+    rewrite <- (esc_nb_follow e nb _ _ He (same_head_app rest _ _ E)). exact Hnb.
 Qed.
-Lemma ident_text_follow t r r' : ident_text t r -> hd0 r = hd0 r' -> ident_text t r'.
+Lemma ident_text_follow t r r' : ident_text t r -> same_head r r' -> ident_text t r'.
 Proof. intros [t0 r0 H|t0 r0 H] E; [apply IT_core|apply IT_dash]; eapply ident_core_follow; eassumption. Qed.
 
 (* a name that reads "url" once backslashes are dropped, in any letter case *)
@@ -1194,13 +1247,13 @@ Definition url_byte (c : Z) : bool := negb (url_bad_char c) && negb (c =? 41).
 Inductive ubody : list Z -> list Z -> Prop :=
 | UB_nil r : ubody [] r
 | UB_char c t r : url_byte c = true -> ubody t r -> ubody (c :: t) r
-| UB_esc e nb t r : esc_text e nb -> nb (hd0 (t ++ r)) = true -> ubody t r -> ubody (e ++ t) r.
+| UB_esc e nb t r : esc_text e nb -> nb (t ++ r) = true -> ubody t r -> ubody (e ++ t) r.
 
 (* what consumeRemnantsBadURL skips: any byte but ")", whole escapes (so "\)" does not close), lone backslashes *)
 Inductive rbody : list Z -> list Z -> Prop :=
 | RB_nil r : rbody [] r
 | RB_char c t r : c <> 41 -> c <> 92 -> rbody t r -> rbody (c :: t) r
-| RB_esc e nb t r : esc_text e nb -> nb (hd0 (t ++ r)) = true -> rbody t r -> rbody (e ++ t) r
+| RB_esc e nb t r : esc_text e nb -> nb (t ++ r) = true -> rbody t r -> rbody (e ++ t) r
 | RB_bs t r : t ++ r = [] \/ is_nl (hd0 (t ++ r)) = true -> rbody t r -> rbody (92 :: t) r.
 
 Definition shift (n : Z) (o : option Z) : option Z := match o with Some m => Some (n + m) | None => None end.
@@ -1331,7 +1384,7 @@ Lemma scan_url name ws1 z ty n : url_name name -> all_b is_ws ws1 -> is_ws (hd0 
   css_scan (name ++ 40 :: ws1 ++ z ++ [0]) = Some (ty, n).
 Proof.
   intros [Ht0 Hurl] Hw Hz Harg Hty.
-  assert (Ht : ident_text name (40 :: ws1 ++ z)) by (eapply ident_text_follow; [exact Ht0|reflexivity]).
+  assert (Ht : ident_text name (40 :: ws1 ++ z)) by (eapply ident_text_follow; [exact Ht0|split; [reflexivity|split; discriminate]]).
   pose proof (ident_token_run name _ (or_introl Ht) (name_follow_paren _)) as Hit.
   pose proof (ident_text_len name _ Ht) as Hlen.
   assert (Hil : consume_identlike (name ++ (40 :: ws1 ++ z) ++ [0]) = Some (ty, n)).
@@ -1534,9 +1587,8 @@ Qed.
    whitespace, the fixed texts, comments (closed / cut by the end of input), names with escapes (ident, custom
    property, function, at-keyword, hash, dimension unit), numbers, strings and bad strings with escapes and line
    continuations, url( ) unquoted and quoted, the four bad-url shapes with the remnants up to ")", unicode-range,
-   and every delimiter byte with the followers that leave it a delimiter.  Not covered (no constructor): a
-   backslash followed by a UTF-8 lead byte whose continuation bytes are cut by the end of the input; "u"/"U" directly
-   followed by "+" and a malformed range (see u_follow). *)
+   and every delimiter byte with the followers that leave it a delimiter.  The converse (every lexer output is of this form) is
+   not proved. *)
 Inductive tok_spec : ttype -> list Z -> list Z -> Prop :=
 | TS_ws t r : t <> [] -> all_b is_ws t -> is_ws (hd0 r) = false -> tok_spec TWhitespace t r
 | TS_fixed ty t r : In (ty, t) fixed_tokens -> tok_spec ty t r
